@@ -227,6 +227,15 @@ func init() {
 			{Cond: Not(ok), Ret: tuple(&BytesV{T: MkStr(""), NilT: TTrue}, newErr("hex", nil))},
 		}
 	})
+	// go-merkletree's SHA3-512 hash type: Hash(data...) = H3_512(concatenation)
+	reg("(*github.com/wealdtech/go-merkletree/v2/sha3.SHA512).Hash", func(c *CallCtx, a []Value) []Outcome {
+		sl := a[1].(*SliceV)
+		var ps []*Term
+		for i := 0; i < sl.Len; i++ {
+			ps = append(ps, c.S.load(&Ptr{Obj: sl.Arr, Path: []int{sl.Off + i}}).(*BytesV).T)
+		}
+		return ret1(&BytesV{T: hashT("H3_512", Concat(ps...)), NilT: TFalse})
+	})
 	reg("crypto/sha256.New", func(c *CallCtx, a []Value) []Outcome { return ret1(newHash(c.S, "H256")) })
 	reg("crypto/sha256.Sum256", func(c *CallCtx, a []Value) []Outcome {
 		return ret1(&BytesV{T: hashT("H256", a[0].(*BytesV).T), NilT: TFalse})
